@@ -416,7 +416,7 @@ func (ch *Chain) ExportImport() (same bool, err error) {
 		}
 	}()
 	f := ch.F
-	if ch.V != nil && (ch.V.Phase != "out" || ch.V.Halted) {
+	if ch.V != nil && (ch.V.Phase == "pre" || ch.V.Halted) {
 		return false, fmt.Errorf("phase")
 	}
 	gs := f.Child.ExportGenesis(ch.Ctx)
